@@ -59,6 +59,7 @@ var workloads = map[string]*workload{}
 // ReplayFile is what the orchestrator writes for a violation.
 type ReplayFile struct {
 	Property  string            `json:"property"`
+	Workload  string            `json:"workload,omitempty"`
 	Flavour   string            `json:"flavour"`
 	Env       []string          `json:"env,omitempty"`
 	Tier      string            `json:"tier"`
@@ -249,9 +250,13 @@ func doReplay(path string) {
 		fmt.Fprintln(os.Stderr, err)
 		os.Exit(2)
 	}
-	w := workloads[rf.Property]
+	wname := rf.Property
+	if rf.Workload != "" {
+		wname = rf.Workload
+	}
+	w := workloads[wname]
 	if w == nil {
-		fmt.Fprintf(os.Stderr, "unknown property %q\n", rf.Property)
+		fmt.Fprintf(os.Stderr, "unknown workload %q\n", wname)
 		os.Exit(2)
 	}
 	if w.init != nil {
@@ -260,7 +265,7 @@ func doReplay(path string) {
 	cnt := map[string]int{}
 	// prefix runs re-create the worker's process-global history
 	for _, i := range rf.Prefix {
-		t := simrt.NewTape(runSeed(rf.BaseSeed, rf.Property, i))
+		t := simrt.NewTape(runSeed(rf.BaseSeed, wname, i))
 		simrt.ResetPools()
 		w.run(&Ctx{T: t, Tier: rf.Tier, Cfg: rf.Cfg, Cnt: cnt, Run: i})
 	}
